@@ -257,3 +257,22 @@ def loads_through_streams_and_names(res, prop, raw, snap_fn, desc, tdir, kinds=N
                     break
     finally:
         os.chdir(cwd)
+
+
+_SONG = [None, 0]
+
+
+def new_project(every=3):
+    """`Project()` as applications make them: every `every`-th one is an instance of an application subclass that behaves as the
+    sequence of its patterns (len() is the number of patterns: zero - falsy - for a new song)."""
+    import rv.api as api
+    if _SONG[0] is None:
+        class Song(api.Project):
+            def __len__(self):
+                return len([q for q in self.patterns if q is not None])
+
+            def __iter__(self):
+                return iter([q for q in self.patterns if q is not None])
+        _SONG[0] = Song
+    _SONG[1] += 1
+    return _SONG[0]() if _SONG[1] % every == 0 else api.Project()
